@@ -19,6 +19,7 @@ From Cedar Require Export Level.
 From Cedar Require Export ManifestRun.
 From Cedar Require Export EntJsonRun.
 From Cedar Require Export FfiRun.
+From Cedar Require Export TPERun.
 
 Definition dispatchers : list (string -> list sexp -> option sexp) :=
   [ run_core
@@ -38,6 +39,7 @@ Definition dispatchers : list (string -> list sexp -> option sexp) :=
   ; run_manifest
   ; run_entjson
   ; run_ffi
+  ; run_tpe
   ].
 
 Fixpoint dispatch (ds : list (string -> list sexp -> option sexp)) (cmd : string) (args : list sexp) : sexp :=
